@@ -60,7 +60,7 @@ func server() (*relsrv.Server, error) {
 	return relSrv, relErr
 }
 
-var c20Tags = []string{"v1.0.0", "v1.5.0", "v1.5.1", "v2.0.0", "v2.1.0-rc1", "v2.1.0", "v3.0.0", "1.6.0", "release-2.2.0", "v1.2", "nightly", "v10.0.0", "v2.0.1-beta"}
+var c20Tags = []string{"v1.0.0", "v1.5.0", "v1.5.1", "v2.0.0", "v2.1.0-rc1", "v2.1.0", "v3.0.0", "1.6.0", "release-2.2.0", "v1.2", "nightly", "v10.0.0", "v2.0.1-beta", "v2.0.0-rc1", "v1.5.0-rc2", "v2.0.0-beta.1"}
 
 func genC20(t *rapid.T) C20Case {
 	if rapid.IntRange(0, 11).Draw(t, "twophase") == 0 {
